@@ -532,9 +532,9 @@ func clientOracle(line string) string {
 	taken := parse(toks[1])
 	evs := toks[2:]
 	resolved := map[int]string{}
-	sentOK := map[string]bool{}     // "k:c"
-	lastSent := map[string]int{}    // per connection
-	lastAck := ""                   // latest ACK-read result seen by the acknowledger: "k:id" or ""
+	sentOK := map[string]bool{}  // "k:c"
+	lastSent := map[string]int{} // per connection
+	lastAck := ""                // latest ACK-read result seen by the acknowledger: "k:id" or ""
 	finished := false
 	for _, e := range evs {
 		f := strings.Split(e, ":")
@@ -654,14 +654,14 @@ func (c *clientComp) Generate(rng *rand.Rand, n int, emit func(Case)) {
 	}
 	// corpus: the stories behind the mechanisms
 	mk(clientScript{n: 3, procs: 2, stopAt: -1}, "corpus")
-	mk(clientScript{n: 3, procs: 2, stopAt: -1, sends: "oe"}, "corpus")                  // send error with a chunk in hand
-	mk(clientScript{n: 3, procs: 2, stopAt: -1, acks: "ie"}, "corpus")                   // ACK read error with pending chunks
-	mk(clientScript{n: 3, procs: 2, stopAt: -1, acks: "w"}, "corpus")                    // unknown id
-	mk(clientScript{n: 4, procs: 2, stopAt: -1, acks: "nn"}, "corpus")                   // out-of-order ACKs
-	mk(clientScript{n: 3, procs: 2, stopAt: 4, acks: "b"}, "corpus")                     // hung ACK read, stop
-	mk(clientScript{n: 5, procs: 1, stopAt: -1, maxDurMs: 2, acks: "ibib"}, "corpus")    // soft reconnect with hung ACK
-	mk(clientScript{n: 3, procs: 2, stopAt: 2, connects: "ffo"}, "corpus")               // connect failures
-	mk(clientScript{n: 12, procs: 8, stopAt: -1, acks: "bbbbbbbbbbbbb"}, "corpus")       // acknowledger channel fills up
+	mk(clientScript{n: 3, procs: 2, stopAt: -1, sends: "oe"}, "corpus")               // send error with a chunk in hand
+	mk(clientScript{n: 3, procs: 2, stopAt: -1, acks: "ie"}, "corpus")                // ACK read error with pending chunks
+	mk(clientScript{n: 3, procs: 2, stopAt: -1, acks: "w"}, "corpus")                 // unknown id
+	mk(clientScript{n: 4, procs: 2, stopAt: -1, acks: "nn"}, "corpus")                // out-of-order ACKs
+	mk(clientScript{n: 3, procs: 2, stopAt: 4, acks: "b"}, "corpus")                  // hung ACK read, stop
+	mk(clientScript{n: 5, procs: 1, stopAt: -1, maxDurMs: 2, acks: "ibib"}, "corpus") // soft reconnect with hung ACK
+	mk(clientScript{n: 3, procs: 2, stopAt: 2, connects: "ffo"}, "corpus")            // connect failures
+	mk(clientScript{n: 12, procs: 8, stopAt: -1, acks: "bbbbbbbbbbbbb"}, "corpus")    // acknowledger channel fills up
 	mk(clientScript{n: 4, procs: 2, stopAt: -1, sends: "ooe", acks: "b", usr1At: 3}, "corpus")
 	mk(clientScript{n: 3, procs: 2, stopAt: 6, sends: "oeoe", closeChan: true}, "corpus") // resend interrupted
 	letters := func(alpha string, weights []int, maxLen int) string {
